@@ -30,7 +30,7 @@ import (
 	"github.com/pquerna/cachecontrol"
 
 	"github.com/dadrus/heimdall/internal/cache"
-	"github.com/dadrus/heimdall/internal/x/stringx"
+	"github.com/dadrus/heimdall/internal/x/hashx"
 )
 
 var ErrNoCacheEntry = errors.New("no cache entry")
@@ -41,6 +41,10 @@ type RoundTripper struct {
 }
 
 func (rt *RoundTripper) RoundTrip(req *http.Request) (*http.Response, error) {
+	if !isCacheable(req) {
+		return rt.Transport.RoundTrip(req)
+	}
+
 	resp, err := rt.cachedResponse(req)
 	if err == nil {
 		return resp, nil
@@ -74,6 +78,11 @@ func (rt *RoundTripper) cacheResponse(req *http.Request, resp *http.Response) {
 		return
 	}
 
+	if len(resp.Header.Values("Vary")) != 0 {
+		// the response depends on request header fields, which are not part of the cache key
+		return
+	}
+
 	if expires.IsZero() {
 		// an Expires header, which is not a valid date, means "already expired" (RFC 7234, section 5.3)
 		if rt.DefaultCacheTTL <= 0 || len(resp.Header.Get("Expires")) != 0 {
@@ -99,17 +108,23 @@ func (rt *RoundTripper) cacheResponse(req *http.Request, resp *http.Response) {
 	cch.Set(ctx, cacheKey(req), respDump, ttl) //nolint:errcheck
 }
 
+// isCacheable reports whether the response to the given request may be looked up in, respectively
+// stored in the cache. A cache entry is identified by the URL, the method and the value of the
+// Authorization header only. Requests with a body (e.g. a token sent to an introspection endpoint)
+// must therefore never be answered from the cache. That is in line with RFC 7234, which allows reusing
+// stored responses only for GET and HEAD requests.
+func isCacheable(req *http.Request) bool {
+	return (req.Method == http.MethodGet || req.Method == http.MethodHead) &&
+		(req.Body == nil || req.Body == http.NoBody)
+}
+
 func cacheKey(req *http.Request) string {
 	hash := sha256.New()
 
-	hash.Write(stringx.ToBytes("RFC 7234"))
-	hash.Write(stringx.ToBytes(req.URL.String()))
-	hash.Write(stringx.ToBytes(req.Method))
-
-	value := req.Header.Get("Authorization")
-	if len(value) != 0 {
-		hash.Write(stringx.ToBytes(strings.TrimSpace(value)))
-	}
+	hashx.WriteString(hash, "RFC 7234")
+	hashx.WriteString(hash, req.URL.String())
+	hashx.WriteString(hash, req.Method)
+	hashx.WriteString(hash, strings.TrimSpace(req.Header.Get("Authorization")))
 
 	return hex.EncodeToString(hash.Sum(nil))
 }
